@@ -15,10 +15,19 @@ only present in non-secure mode, run inside a sandbox directory) is called
 through the interpreter with positional argument tuples from the pool; the
 recorded outcomes of A and B are validated by TLC against Natives_Trace.
 
+Round 2: spec/FormsGraph.tla (+ FormsGraphOps.tla) models the programs that
+build data which is finite but not a tree - collections holding themselves, a
+`_proto_` chain that leads back into itself, a key changed after it was put
+in - and hand it to an observer (render, hash, member lookup, iteration, ...);
+TLC exports every program of the family, they are executed like the form cases
+and their outcomes validated by Natives_Trace, which re-derives the heap from
+the recorded steps.  The wide pool of the function sweep holds such values too.
+
 The decision is the exception class leaving Interpreter.interpret and the wall
 clock bound per call.  Where Forms.tla predicts value-vs-error and the code
 differs, that is drift, never a violation.
 """
+import concurrent.futures
 import datetime
 import io
 import itertools
@@ -69,15 +78,14 @@ EXTRA_SRC = {
 GRAPH_SRC = {
     "x_i5000": "1" + "0" * 4000 + " * 1" + "0" * 1000,
     "x_lhugedec": "[1" + "0" * 400 + ", 0.5]",
-    "x_dint": "decimal(1" + "0" * 400 + ")",
     "x_lself": "do def l = [1]; append(l, l); l end",
     "x_lmutual": "do def a = [1]; def b = [a]; append(a, b); a end",
     "x_mself": "do def m = <<<'a' => 1>>>; m['k'] = m; m end",
     "x_oself": "do def o = <*a = 1*>; o->self = o; o end",
     "x_setself": "do def s = <<1>>; append(s, s); s end",
-    "x_ocyc": "do def o = <*a = 1*>; o['_proto_'] = o; o end",
-    "x_ocyc2": "do def o = <*a = 1*>; def q = <*_proto_ = o*>; o['_proto_'] = q; q end",
-    "x_ldeep": "do def x = 1; for i in range(3000) do x = [x] end; x end",
+    "x_ocyc": "do def o = <*b = 1*>; o['_proto_'] = o; o end",
+    "x_ocyc2": "do def o = <*b = 1*>; def q = <*_proto_ = o*>; o['_proto_'] = q; q end",
+    "x_ldeep": "do def x = 1; for i in range(1500) do x = [x] end; x end",
     "x_mlistkey": "do def l = [1]; def m = <<<>>>; m[l] = 1; append(l, 2); m end",
     "x_setlistmem": "do def l = [1]; def s = <<l>>; append(l, 2); s end",
 }
@@ -237,6 +245,11 @@ class World:
             return V.ValueInput(V.StringInput("x\ny"))
         if tag == "output":
             return V.ValueOutput(V.StringOutput())
+        if tag == "x_ldeep":            # what GRAPH_SRC["x_ldeep"] builds, without 1500 interpreted loop passes
+            x = V.ValueInt(1)
+            for _ in range(1500):
+                x = V.ValueList().addItem(x)
+            return x
         if tag in EXTRA_SRC:
             return it.interpret(EXTRA_SRC[tag], "c13")
         # sandbox values
@@ -346,6 +359,8 @@ def run_one(job, limit=ALARM_S):
         b = {f"p{i}": w.make(t) for i, t in enumerate(tags)}
         b["f__"] = fn
         src = call_src(len(tags))
+    elif kind == "prog":             # a whole program of FormsGraph.tla; tags only describe it
+        ikey, b, src = "base", {}, what
     else:
         ikey = "base"
         b = {f"p{i}": w.make(t) for i, t in enumerate(tags)}
@@ -367,6 +382,8 @@ def run_caught(job, limit=ALARM_S):
         b = {f"p{i}": w.make(t) for i, t in enumerate(tags)}
         b["f__"] = fn
         src = call_src(len(tags))
+    elif kind == "prog":
+        ikey, b, src = "base", {}, what
     else:
         ikey = "base"
         b = {f"p{i}": w.make(t) for i, t in enumerate(tags)}
@@ -399,7 +416,7 @@ def _chunk(jobs):
     for j in jobs:
         out, detail = run_one(j)
         caught = ""
-        if out == "error:ok" and j[0] == "form":
+        if out == "error:ok" and j[0] in ("form", "prog"):
             caught = run_caught(j)
         res.append((out, detail, caught))
     return res
@@ -440,6 +457,10 @@ class Sweep:
         self.pool = self.ctx.Pool(workers, initializer=_init_worker, initargs=(self.sandbox,))
         self.iso = None
         self.evaluations = 0
+        self.t0 = time.time()
+        self.suspect = 0          # outcomes seen so far that the property forbids (timeouts not yet re-run)
+        self.cut = False          # the time budget ran out on a tree that already shows violations
+        self.skipped = 0
 
     def close(self):
         self.pool.terminate()
@@ -466,24 +487,81 @@ class Sweep:
         10^4 in its place (work proportional to the magnitude of a number), any
         other - and a scaled case that is slow too - is re-run alone with the
         longer bound."""
-        chunks = [jobs[i:i + chunk] for i in range(0, len(jobs), chunk)]
-        res = []
-        for r in self.pool.imap(_chunk, chunks):
-            res.extend({"out": o, "detail": d, "caught": c, "scaled": ""} for o, d, c in r)
-        self.evaluations += len(jobs) + sum(1 for r in res if r["caught"])
+        # neighbouring jobs (one site, one slow argument) go to different chunks: a run of
+        # calls that each wait for the alarm would otherwise be served by a single worker
+        # A tree on which many cases hang would keep the check busy for half an hour (2 s per case,
+        # 10 s per re-run).  Once outcomes the property forbids have been seen and BUDGET_S are
+        # spent, the remaining cases are not executed ("skipped", no event): the check then reports
+        # what it has and never exits 0 (see run()).  A tree without such outcomes is always run in full.
+        if self.cut:
+            self.skipped += len(jobs)
+            return [dict(SKIPPED) for _ in jobs]
+        k = max(1, -(-len(jobs) // chunk))
+        res = [dict(SKIPPED) for _ in jobs]
+        parts = [jobs[c::k] for c in range(k)]
+        for c, r in enumerate(self.pool.imap(_chunk, parts)):
+            for j, (o, d, ca) in enumerate(r):
+                res[c + j * k] = {"out": o, "detail": d, "caught": ca, "scaled": ""}
+                self.suspect += suspicious(parts[c][j], o)
+            if self.suspect and time.time() - self.t0 > BUDGET_S and c + 1 < k:
+                self.cut = True
+                self.pool.terminate()
+                break
+        self.skipped += sum(1 for r in res if r["out"] == "skipped")
+        self.evaluations += sum(1 + bool(r["caught"]) for r in res if r["out"] != "skipped")
         slow = [i for i, r in enumerate(res) if r["out"] in ("timeout", "host:MemoryError")]
         big = [i for i in slow if any(t in HUGE_TAGS for t in jobs[i][2])]
         for i, (out, detail) in zip(big, self._alone([scaled_job(jobs[i]) for i in big])):
             if out in ("value", "error:ok"):
                 res[i]["scaled"] = out
         again = [i for i in slow if not res[i]["scaled"]]
-        for i, (out, detail) in zip(again, self._alone([jobs[i] for i in again])):
+        # Re-running hundreds of cases that really hang (10 s each) would take the check far beyond
+        # its time limit on a defective tree.  Beyond MAX_ALONE cases the first REPS of every site
+        # are re-run alone; where none of them ends either, the site's other cases are believed.
+        groups = {}
+        for i in again:
+            groups.setdefault(group_key(jobs[i]), []).append(i)
+        reps = [i for g in groups.values() for i in g[:REPS]]
+        redo = dict(zip(reps, self._alone([jobs[i] for i in reps])))
+        rest = []
+        for g in groups.values():
+            ended = any(redo[i][0] not in ("timeout", "host:MemoryError") for i in g[:REPS])
+            if ended or len(again) <= MAX_ALONE:
+                rest.extend(g[REPS:])
+            else:
+                for i in g[REPS:]:
+                    res[i]["detail"] = "not re-run alone: the first cases of this site did not end alone either"
+        redo.update(zip(rest, self._alone([jobs[i] for i in rest])))
+        for i, (out, detail) in redo.items():
             res[i]["out"], res[i]["detail"] = out, detail
         return res
 
     def caught(self, jobs):
+        if self.cut:
+            return [""] * len(jobs)
         self.evaluations += len(jobs)
         return self.pool.map(_caught_one, jobs, chunksize=20)
+
+
+MAX_ALONE = 64
+REPS = 2
+BUDGET_S = 150
+SKIPPED = {"out": "skipped", "detail": "", "caught": "", "scaled": ""}
+
+
+def suspicious(job, out):
+    """an outcome the property forbids (a timeout counts unless the case holds a huge int: work
+    proportional to a magnitude is settled by the scaled re-run)"""
+    if out in ("value", "error:ok", "host:MemoryError"):
+        return 0
+    if out == "timeout":
+        return 0 if any(t in HUGE_TAGS for t in job[2]) else 1
+    return 1
+
+
+def group_key(job):
+    """the site of a job: the function, the form, the observer of a graph program"""
+    return job[2][-1] if job[0] == "prog" else job[1]
 
 
 def _caught_one(job):
@@ -518,8 +596,14 @@ def function_jobs(run, sites, rng, quick):
         if quick:
             # a wide value next to a few everyday partners (a count, an index, a separator, NULL)
             partners = ["i0", "i2", "ineg", "null", "sa", "x_i3"]
+            # the round-2 values also meet a date and a decimal (numbers) or a list, a set and a map
+            def more(a):
+                if a in HUGE_TAGS or a == "x_lhugedec":
+                    return ["date", "dneg"]
+                return ["l2", "set1", "map1"] if a in GRAPH_SRC else []
             for a in EXTRA_TAGS:
-                for b in partners:
+                # (the 5000-digit int differs from 10^400 in its rendering only: three partners)
+                for b in (["i2", "sa", "null"] if a == "x_i5000" else partners + more(a)):
                     if a != b:
                         jobs.append(("fn", s, (a, b)))
                         jobs.append(("fn", s, (b, a)))
@@ -543,22 +627,70 @@ def function_jobs(run, sites, rng, quick):
 QUICK_ARITY3 = 40000
 
 
-def validate(run, events, label):
+def graph_cases(run, res):
+    """the programs TLC generated from FormsGraph.tla, one per text"""
+    run.add_tlc(res, "FormsGraph (programs building self-containing data, proto loops, changed keys; "
+                     "Total, WalkIsCycle, LookupEnds, OldLookupLoops)")
+    cases = {}
+    for c in res.records("GCASE"):
+        cases.setdefault(c["text"], c)
+    if not cases:
+        raise MachineryError("TLC exported no graph programs")
+    if any(c["pred"] not in ("value", "error", "any") for c in cases.values()):
+        raise MachineryError("FormsGraph.tla exported a stuck case although Total held")
+    return [cases[t] for t in sorted(cases)]
+
+
+def graph_tags(c):
+    """a description of the program for keys and reports; the observer comes last"""
+    return tuple(list(c["kinds"]) + [f"{s['op']}:{s['x']}:{s['y']}" for s in c["steps"]]
+                 + [f"{c['obs']['x']}:{c['obs']['y']}", c["obs"]["name"]])
+
+
+class Verdicts:
+    """the records of the parts of one trace, line numbers counted over the whole trace"""
+
+    def __init__(self):
+        self.recs = {}
+
+    def add(self, res, offset):
+        for tag in ("BAD", "DRIFT"):
+            for r in res.records(tag):
+                self.recs.setdefault(tag, []).append(dict(r, l=r["l"] + offset))
+
+    def records(self, tag):
+        return sorted(self.recs.get(tag, []), key=lambda r: r["l"])
+
+
+def validate(run, events, label, parts=3):
+    """Natives_Trace over the recorded events; a long trace is cut into parts validated side by
+    side (trace validation runs on one TLC worker; an event is judged on its own)"""
     d = tempfile.mkdtemp(prefix="c13-")
-    path = os.path.join(d, "trace.ndjson")
-    try:
+    parts = max(1, min(parts, len(events) // 5000 + 1))
+    size = -(-len(events) // parts)
+    cuts = [(i, events[i:i + size]) for i in range(0, len(events), size)]
+
+    def one(cut):
+        offset, evs = cut
+        path = os.path.join(d, f"trace-{offset}.ndjson")
         with open(path, "w") as f:
-            for e in events:
+            for e in evs:
                 f.write(json.dumps(e) + "\n")
-        res = run_tlc("Natives_Trace", workers=1, env={"TRACE_FILE": path}, timeout=3000,
-                      coverage=True)
+        return run_tlc("Natives_Trace", workers=1, env={"TRACE_FILE": path}, timeout=3000, coverage=True)
+
+    try:
+        with concurrent.futures.ThreadPoolExecutor(len(cuts)) as ex:
+            results = list(ex.map(one, cuts))
     finally:
         shutil.rmtree(d, ignore_errors=True)
-    run.add_tlc(res, label)
-    done = res.records("DONE")
-    if not done or done[-1]["n"] != len(events):
-        raise MachineryError("Natives_Trace did not consume the whole trace")
-    return res
+    verdicts = Verdicts()
+    for (offset, evs), res in zip(cuts, results):
+        run.add_tlc(res, label + (f" [events {offset + 1}..{offset + len(evs)}]" if len(cuts) > 1 else ""))
+        done = res.records("DONE")
+        if not done or done[-1]["n"] != len(evs):
+            raise MachineryError("Natives_Trace did not consume the whole trace")
+        verdicts.add(res, offset)
+    return verdicts
 
 
 def event(site, form, tags, r, n=1):
@@ -586,7 +718,7 @@ def report(run, res, events, cases):
                       cases[i]["case"])
     for dr in res.records("DRIFT"):
         e = events[dr["l"] - 1]
-        run.drift("prediction:" + e["form"],
+        run.drift("prediction:" + (e["site"] if e["form"] == "graph" else e["form"]),
                   {"form": e["form"], "tags": e["tags"], "predicted": dr["pred"], "observed": e["out"]})
     return bad
 
@@ -596,7 +728,11 @@ def run(run):
     rng = random.Random(run.seed)
     t0 = time.time()
     # ---- binding A: the cases TLC generates from Forms.tla
-    tlc = run_tlc("Forms", "Forms_quick" if quick else "Forms_thorough", coverage=True, timeout=3000)
+    with concurrent.futures.ThreadPoolExecutor(2) as ex:      # the two models side by side
+        graph_run = ex.submit(run_tlc, "FormsGraph", "FormsGraph_quick" if quick else "FormsGraph_thorough",
+                              coverage=False, timeout=3000)
+        tlc = run_tlc("Forms", "Forms_quick" if quick else "Forms_thorough", coverage=True, timeout=3000)
+        graph_run = graph_run.result()
     run.add_tlc(tlc, "Forms (every form applied to every pool tuple; NotStuck)")
     forms = tlc.records("FORMS")[0]
     pool = tlc.records("POOL")[0]
@@ -616,6 +752,8 @@ def run(run):
         fres = sw.execute(form_jobs)
         events, meta = [], []
         for (f, i, j, k, c), job, r in zip(cases, form_jobs, fres):
+            if r["out"] == "skipped":
+                continue
             fm = forms[f - 1]
             events.append(event("form:" + fm["name"], fm["name"], job[2], r))
             meta.append({"detail": r["detail"],
@@ -634,13 +772,39 @@ def run(run):
                     for b in (base if ar > 1 else base[:1]):
                         tags = tuple(x if q == pos_ else b for q in range(ar))
                         wide_jobs.append((fm, ("form", fm["text"], tags)))
-        if quick and len(wide_jobs) > 12000:
-            wide_jobs = rng.sample(wide_jobs, 12000)
+        if quick:
+            # the round-2 values always; a seeded sample of the others
+            keep = [wj for wj in wide_jobs if any(t in GRAPH_SRC for t in wj[1][2])]
+            others = [wj for wj in wide_jobs if not any(t in GRAPH_SRC for t in wj[1][2])]
+            if len(others) > 12000:
+                others = rng.sample(others, 12000)
+            wide_jobs = others + keep
         wres = sw.execute([j for _, j in wide_jobs])
         for (fm, job), r in zip(wide_jobs, wres):
+            if r["out"] == "skipped":
+                continue
             events.append(event("form:" + fm["name"] + ":wide", "", job[2], r))
             meta.append({"detail": r["detail"],
                          "case": {"kind": "form", "what": job[1], "tags": list(job[2]), "form": fm["name"]}})
+        # ---- round 2: the programs of FormsGraph.tla (data that is finite but not a tree)
+        gcases = graph_cases(run, graph_run)
+        gjobs = [("prog", c["text"], graph_tags(c)) for c in gcases]
+        gres = sw.execute(gjobs)
+        gstats = {"programs": len(gcases), "cyclic": 0, "proto_loop": 0, "stale_key": 0, "observers": {}}
+        for c, job, r in zip(gcases, gjobs, gres):
+            if r["out"] == "skipped":
+                continue
+            g = {"kinds": c["kinds"], "steps": c["steps"], "obs": c["obs"]}
+            ev = event("graph:" + c["obs"]["name"], "graph", job[2], r)
+            ev["g"] = g
+            events.append(ev)
+            meta.append({"detail": r["detail"],
+                         "case": {"kind": "prog", "what": job[1], "tags": list(job[2]), "form": "graph", "g": g}})
+            gstats["cyclic"] += bool(c["cyc"])
+            gstats["proto_loop"] += bool(c["ploop"])
+            gstats["stale_key"] += bool(c["stale"])
+            o = gstats["observers"].setdefault(c["obs"]["name"], {})
+            o[r["out"]] = o.get(r["out"], 0) + 1
         nform = len(events)
         t1 = time.time()
         # ---- binding B: the function sweep over the live environments
@@ -650,6 +814,8 @@ def run(run):
         groups = {}
         trivial = 0
         for job, r in zip(fjobs, gres):
+            if r["out"] == "skipped":
+                continue
             if r["detail"] == "too-many":
                 trivial += 1
             key = (job[1], len(job[2]), r["out"], r["scaled"])
@@ -667,11 +833,18 @@ def run(run):
             meta.append({"detail": r["detail"],
                          "case": {"kind": "fn", "what": job[1], "tags": list(job[2])}})
         evaluations = sw.evaluations
+        cut, skipped = sw.cut, sw.skipped
     finally:
         sw.close()
     t2 = time.time()
     res = validate(run, events, "Natives_Trace (recorded outcomes of forms and functions)")
     bad = report(run, res, events, meta)
+    if cut:
+        run.cov["incomplete"] = {"cases_not_executed": skipped, "budget_s": BUDGET_S,
+                                 "why": "outcomes the property forbids had been seen when the time budget ran out"}
+        if not bad:
+            raise MachineryError("the time budget ran out after suspected violations, none of which was confirmed: "
+                                 "no verdict (run again on a quieter machine)")
     # cross-check of the machinery: TLC must reject exactly what the grammar of outcomes forbids
     expect_bad = sum(1 for e in events if not (
         e["out"] == "value" or (e["out"] == "error:ok" and e["caught"] in ("", "caught", "not-raised"))
@@ -690,7 +863,7 @@ def run(run):
     k = nform + (len(events) - nform) // 2
     run.sample({"function_event": events[k]})
     run.sample({"function_event": events[-1]})
-    ncalls = len(form_jobs) + len(fjobs)
+    ncalls = sum(e["n"] for e in events)        # executed cases (forms, forms on the wide pool, graph programs, calls)
     run.cov["traces_validated_against_impl"] = ncalls
     run.cov["evaluations"] = evaluations
     run.cov["distinct_nontrivial"] = ncalls - trivial
@@ -699,6 +872,7 @@ def run(run):
                        "arguments are bound; evaluations also counts the catch probes and the re-runs")
     run.cov["exhaustive"] = not quick
     run.cov["forms"] = len(forms)
+    run.cov["graph_programs"] = gstats
     run.cov["form_cases"] = len(form_jobs)
     run.cov["function_sites"] = len(sites)
     run.cov["distinct_functions"] = len(reps)
@@ -746,7 +920,11 @@ def replay(run, case):
     finally:
         sw.close()
     site = ("form:" + case["form"]) if case["kind"] == "form" else case["what"]
+    if case["kind"] == "prog":
+        site = "graph:" + case["g"]["obs"]["name"]
     events = [event(site, case.get("form", ""), job[2], r)]
+    if case["kind"] == "prog":
+        events[0]["g"] = case["g"]
     res = validate(run, events, "replay")
     report(run, res, events, [{"detail": r["detail"], "case": case}])
     run.sample({"replayed": events[0]})
